@@ -143,6 +143,7 @@ package __PKG__
 import (
 	"fmt"
 	"os"
+	"strings"
 	"testing"
 )
 
@@ -157,6 +158,45 @@ __HARNESSES__
 	h, ok := hs[name]
 	if !ok {
 		t.Fatalf("unknown harness %q", name)
+	}
+	if sw := os.Getenv("VERIF_SWEEP"); sw != "" {
+		// native self-test of a harness: every combination of the listed small-range nondets is run against the
+		// real code (sanity check of the native environment of a harness; not the deciding step of any check)
+		type dim struct {
+			name   string
+			lo, hi int64
+		}
+		var dims []dim
+		for _, part := range strings.Split(sw, ",") {
+			var d dim
+			eq := strings.Index(part, "=")
+			dots := strings.Index(part, "..")
+			d.name = part[:eq]
+			fmt.Sscanf(part[eq+1:dots], "%d", &d.lo)
+			fmt.Sscanf(part[dots+2:], "%d", &d.hi)
+			dims = append(dims, d)
+		}
+		n, bad := 0, 0
+		var rec func(i int)
+		rec = func(i int) {
+			if i == len(dims) {
+				n++
+				if res := vRunNative(h); res != "ok" && res != "assume-violated" {
+					bad++
+					if bad <= 5 {
+						fmt.Printf("VERIF-SWEEP-FAIL: %v %s\n", vReplay.Values, res)
+					}
+				}
+				return
+			}
+			for v := dims[i].lo; v <= dims[i].hi; v++ {
+				vReplay.Values[dims[i].name] = v
+				rec(i + 1)
+			}
+		}
+		rec(0)
+		fmt.Printf("VERIF-RESULT: sweep %d combinations, %d failing\n", n, bad)
+		return
 	}
 	res := vRunNative(h)
 	fmt.Printf("VERIF-RESULT: %s\n", res)
